@@ -145,7 +145,7 @@ def strip_comments(src):
 
 
 # tie T: which GenEq files (regenerated definitions = model) each property relies on
-_DRV = ["GenEq/GenEqSrcDriver", "GenEq/GenEqStrat"]
+_DRV = ["GenEq/GenEqSrcDriver", "GenEq/GenEqStrat", "GenEq/GenEqSrcRewriters"]
 _MIN = ["GenEq/GenEqTestcase", "GenEq/GenEqUtil", "GenEq/GenEqStrat", "GenEq/GenEqSplit",
         "GenEq/GenEqSrcMinimize"] + _DRV
 _SPL = ["GenEq/GenEqSplit", "GenEq/GenEqSrcSplit"]
@@ -157,16 +157,17 @@ TIES = {
     "C13": ["GenEq/GenEqTestcase", "GenEq/GenEqUtil", "GenEq/GenEqStrat", "GenEq/GenEqSplit",
             "GenEq/GenEqSrcPairs"] + _DRV,
     "C05": _SPL + ["GenEq/GenEqStrat", "GenEq/GenEqSrcCollapse", "GenEq/GenEqSrcMinimize", "GenEq/GenEqSrcPairs"] + _DRV,
-    "C06": _SPL, "C08": _SPL, "C15": _SPL, "C16": _SPL,
+    "C06": _SPL, "C08": _SPL, "C16": _SPL,
+    "C15": _SPL + ["GenEq/GenEqSrcCollapse"],
     "C07": ["GenEq/GenEqTestcase", "GenEq/GenEqUtil", "GenEq/GenEqSplit"],
     "C17": ["GenEq/GenEqSrcCli", "GenEq/GenEqStrat"],
     "C18": ["GenEq/GenEqStatus", "GenEq/GenEqSrcRun"],
     "C19": ["GenEq/GenEqSrcInterest"],
-    "C20": ["GenEq/GenEqTemp"],
+    "C20": ["GenEq/GenEqTemp", "GenEq/GenEqSrcDriver"],
 }
 
 
-def proof_status(pid):
+def proof_status(pid, tier="quick"):
     """Re-check Props/<pid>.v: built, closed under the global context, no forbidden
     vernacular in its dependency closure; plus the GenEq files of TIES.  Returns dict."""
     target = f"Props/{pid}"
@@ -225,6 +226,22 @@ def proof_status(pid):
                         res["axioms"].append(mm.group(1))
         res["axioms"] = sorted(set(res["axioms"]))
         res["closed"] = (r.returncode == 0 and not res["axioms"] and res["closed_count"] > 0)
+    if res["built"] and (tier == "thorough" or os.environ.get("VERIF_COQCHK")):
+        # independent re-check of the compiled files and everything they depend on
+        try:
+            r = subprocess.run(["coqchk", "-silent", "-o"] + QFLAGS + [f"Lithium.{pid}"], cwd=COQ,
+                               capture_output=True, text=True, timeout=3000, check=False)
+            out = r.stdout + r.stderr
+            m = re.search(r"\* Axioms:\s*(.*?)\n\s*\n", out, re.S)
+            axioms = (m.group(1).strip() if m else "?")
+            res["coqchk"] = {"rc": r.returncode, "axioms": axioms,
+                             "type_in_type": "type-in-type: <none>" in out,
+                             "positivity": "positivity is assumed: <none>" in out}
+            if r.returncode != 0 or axioms != "<none>" or not res["coqchk"]["type_in_type"] \
+                    or not res["coqchk"]["positivity"]:
+                res["broken"].append("coqchk: " + (axioms if r.returncode == 0 else out[-200:]))
+        except subprocess.TimeoutExpired:
+            res["coqchk"] = {"rc": "timeout"}
     res["ok"] = bool(res["built"] and res["closed"] and not res["forbidden"]
                      and not res["broken"])
     return res
@@ -373,6 +390,8 @@ class Check:
         self.cov["proof_files"] = pr.get("files", [])
         self.cov["print_assumptions_closed"] = pr.get("closed_count", 0)
         self.cov["axioms"] = pr.get("axioms", [])
+        if pr.get("coqchk"):
+            self.cov["coqchk"] = pr["coqchk"]
         self.cov["correspondence_mismatches"] = len(self.mismatches)
         self.cov["known_finding_hits"] = {k: v["n"] for k, v in self.known_hits.items()}
         if extra:
